@@ -431,6 +431,13 @@ func (sc *StatsController) DropDbStats(ctx *sql.Context, sch, dbName string, flu
 	sc.mu.Lock()
 	defer sc.mu.Unlock()
 
+	// database names are case-insensitive, |dbName| may be spelled differently than it was registered
+	for name := range sc.dbFs {
+		if strings.EqualFold(name, dbName) {
+			dbName = name
+			break
+		}
+	}
 	dbFs := sc.dbFs[dbName]
 	delete(sc.dbFs, dbName)
 	if sc.statsBackingDb == dbFs {
